@@ -9,16 +9,17 @@ open PrologVerif PrologVerif.VM PrologVerif.DecompileCompile PrologVerif.Activat
   PrologVerif.Promise PrologVerif.DFSG PrologVerif.ForceDFSGConv
 
 section
-variable {fl : Bool} {tmpl : Term} {max : Nat} {prog : List Term} {F : Nat}
+variable {fl : Bool} {mo : Option Nat} {tmpl : Term} {max : Nat} {prog : List Term} {F : Nat}
 
-theorem LvOK.deeper {lv : Lv} {d d' : Nat} (h : LvOK lv d) (hd : d ≤ d') : LvOK lv d' :=
-  ⟨h.nodup, h.nz, h.mono, fun e he l hl => Nat.lt_of_lt_of_le (h.below e he l hl) hd⟩
+theorem LvOK.deeper {lv : Lv} {d d' : Nat} (h : LvOK mo lv d) (hd : d ≤ d') : LvOK mo lv d' :=
+  ⟨h.nodup, h.nz, h.mono, fun e he l hl => Nat.lt_of_lt_of_le (h.below e he l hl) hd,
+    fun dN hdN => Nat.lt_of_lt_of_le (h.lo dN hdN) hd, h.above⟩
 
 /-- a call with one alternative that the VM does not make changes nothing: the cut levels in use
     are below its depth -/
 theorem match_post {lv : Lv} {d : Nat} {ans0 : List Term} {m m' : MS} {sig : SigG Err} {r1 : SLD.Res}
-    (hok : LvOK lv d) (hm : Match tmpl max prog lv ans0 m m' sig r1) :
-    Match tmpl max prog lv ans0 m m' sig (post d r1) := by
+    (hok : LvOK mo lv d) (hm : Match mo tmpl max prog lv ans0 m m' sig r1) :
+    Match mo tmpl max prog lv ans0 m m' sig (post d r1) := by
   rcases hm.stop with ⟨h1, h2, h3⟩ | ⟨c, l, h1, h2, h3, h4⟩ | ⟨h1, h2⟩ | ⟨F', c1, c2, ex, co, h1, h2⟩
   · have e : post d r1 = ⟨r1.answers ++ [], .exhausted⟩ := by simp [post, h2]
     rw [e]
@@ -27,25 +28,34 @@ theorem match_post {lv : Lv} {d : Nat} {ans0 : List Term} {m m' : MS} {sig : Sig
     have e : post d r1 = { r1 with stop := .cut l } := by simp [post, h2, hl]
     rw [e]
     exact ⟨hm.ans, Or.inr (Or.inl ⟨c, l, h1, rfl, h3, h4⟩), hm.st, hm.nvar⟩
-  · have e : post d r1 = r1 := by simp [post, h2]
+  · have e : post d r1 = r1 := by
+      cases mo with
+      | none =>
+        have h2' : r1.stop = .full := h2
+        simp [post, h2']
+      | some dN =>
+        have h2' : r1.stop = .cut dN := h2
+        have hne : dN ≠ d := by have := hok.lo dN rfl; omega
+        cases r1
+        simp_all [post]
     rw [e]; exact hm
   · have e : post d r1 = r1 := by simp [post, h2]
     rw [e]; exact hm
 
 theorem match_postN {lv : Lv} {ans0 : List Term} {m m' : MS} {sig : SigG Err} {r1 : SLD.Res} :
-    ∀ (j d : Nat), LvOK lv d → Match tmpl max prog lv ans0 m m' sig r1 →
-      Match tmpl max prog lv ans0 m m' sig (postN d j r1)
+    ∀ (j d : Nat), LvOK mo lv d → Match mo tmpl max prog lv ans0 m m' sig r1 →
+      Match mo tmpl max prog lv ans0 m m' sig (postN d j r1)
   | 0, _, _, hm => hm
   | j + 1, d, hok, hm => match_post hok (match_postN j (d + 1) (hok.deeper (Nat.le_succ d)) hm)
 
-theorem tp_succ {k : Nat} (ihA : TAk fl tmpl max prog F k) (ihD : TDk fl tmpl max prog F k)
-    (ihPall : ∀ j, j ≤ k → TPk fl tmpl max prog F j) (hprog : ∀ c ∈ prog, clauseS fl c = true) :
-    TPk fl tmpl max prog F (k + 1) := by
+theorem tp_succ {k : Nat} (ihA : TAk fl mo tmpl max prog F k) (ihD : TDk fl mo tmpl max prog F k)
+    (ihPall : ∀ j, j ≤ k → TPk fl mo tmpl max prog F j) (hprog : ∀ c ∈ prog, clauseS fl c = true) :
+    TPk fl mo tmpl max prog F (k + 1) := by
   intro p lv m sig m' hd hgood d0 ans0 r0 hspecW hok0 hst hlt
   obtain ⟨j, r, hspec, rfl⟩ := hspecW
-  have hok : LvOK lv (d0 + j) := hok0.deeper (Nat.le_add_right _ _)
+  have hok : LvOK mo lv (d0 + j) := hok0.deeper (Nat.le_add_right _ _)
   generalize hdj : d0 + j = d at hspec hok
-  suffices hmain : sig = .illScoped ∨ Match tmpl max prog lv ans0 m m' sig r by
+  suffices hmain : sig = .illScoped ∨ Match mo tmpl max prog lv ans0 m m' sig r by
     rcases hmain with h | h
     · exact Or.inl h
     · exact Or.inr (match_postN j d0 hok0 h)
@@ -55,25 +65,34 @@ theorem tp_succ {k : Nat} (ihA : TAk fl tmpl max prog F k) (ihD : TDk fl tmpl ma
     rw [leaf_ok' rfl rfl] at hd
     simp only [Option.some.injEq, Prod.mk.injEq] at hd
     obtain ⟨rfl, rfl⟩ := hd
-    exact Or.inr ⟨⟨[], (by show m.user.answers = [] ++ ans0; simpa using hans), .nil⟩,
+    exact Or.inr ⟨⟨[], (by show m.user.answers = [] ++ ans0; simpa using hans), .nil, fun _ => rfl⟩,
       Or.inl ⟨rfl, rfl, by rw [show (tick m).user.answers = m.user.answers from rfl, hans]; exact hlt⟩,
       stOK_tick hst, Nat.le_refl _⟩
-  | answer hans hrel =>
+  | done hmo hans =>
+    rename_i dN
+    rw [leaf_ok' rfl rfl] at hd
+    simp only [Option.some.injEq, Prod.mk.injEq] at hd
+    obtain ⟨rfl, rfl⟩ := hd
+    subst hmo
+    exact Or.inr ⟨⟨[], (by show m.user.answers = [] ++ ans0; simpa using hans), .nil, fun _ => rfl⟩,
+      Or.inr (Or.inr (Or.inl ⟨rfl, rfl⟩)), stOK_tick hst, Nat.le_refl _⟩
+  | answer hmo hans hrel =>
     rename_i a q
+    subst hmo
     by_cases hc : (a :: ans0).length ≥ max
     · rw [if_pos hc] at hd
       rw [leaf_ok' rfl rfl] at hd
       simp only [Option.some.injEq, Prod.mk.injEq] at hd
       obtain ⟨rfl, rfl⟩ := hd
       have h1 : max - ans0.length = 1 := by simp only [List.length_cons] at hc; omega
-      refine Or.inr ⟨⟨[a], (by show m.user.answers = [a] ++ ans0; simpa using hans), .cons hrel .nil⟩,
-        Or.inr (Or.inr (Or.inl ⟨rfl, by simp [h1]⟩)), stOK_tick hst, Nat.le_refl _⟩
+      refine Or.inr ⟨⟨[a], (by show m.user.answers = [a] ++ ans0; simpa using hans), .cons hrel .nil, fun h => by cases h⟩,
+        Or.inr (Or.inr (Or.inl ⟨rfl, by simp [h1, foundStop]⟩)), stOK_tick hst, Nat.le_refl _⟩
     · rw [if_neg hc] at hd
       rw [leaf_ok' rfl rfl] at hd
       simp only [Option.some.injEq, Prod.mk.injEq] at hd
       obtain ⟨rfl, rfl⟩ := hd
       have h1 : max - ans0.length ≠ 1 := by simp only [List.length_cons] at hc; omega
-      refine Or.inr ⟨⟨[a], (by show m.user.answers = [a] ++ ans0; simpa using hans), .cons hrel .nil⟩,
+      refine Or.inr ⟨⟨[a], (by show m.user.answers = [a] ++ ans0; simpa using hans), .cons hrel .nil, fun h => by cases h⟩,
         Or.inl ⟨rfl, by simp [h1], ?_⟩, stOK_tick hst, Nat.le_refl _⟩
       rw [show (tick m).user.answers = m.user.answers from rfl, hans]
       simp only [List.length_cons] at hc ⊢
@@ -83,7 +102,7 @@ theorem tp_succ {k : Nat} (ihA : TAk fl tmpl max prog F k) (ihD : TDk fl tmpl ma
     rw [leaf_err' rfl rfl] at hd
     simp only [Option.some.injEq, Prod.mk.injEq] at hd
     obtain ⟨rfl, rfl⟩ := hd
-    exact Or.inr ⟨⟨[], (by show m.user.answers = [] ++ ans0; simpa using hans), .nil⟩,
+    exact Or.inr ⟨⟨[], (by show m.user.answers = [] ++ ans0; simpa using hans), .nil, fun _ => rfl⟩,
       Or.inr (Or.inr (Or.inr ⟨F', c1, c2, [], none, rfl, rfl⟩)), stOK_tick hst, Nat.le_refl _⟩
   | alts hans hid0 hshape hsim hs =>
     rename_i id its g K env R q nv n
@@ -98,7 +117,7 @@ theorem tp_succ {k : Nat} (ihA : TAk fl tmpl max prog F k) (ihD : TDk fl tmpl ma
         rw [List.filterMap_nil, solveAlts_nil] at hs
         simp only [SLD.failed, Option.some.injEq] at hs
         subst hs
-        exact Or.inr ⟨⟨[], (by show m.user.answers = [] ++ ans0; simpa using hans), .nil⟩,
+        exact Or.inr ⟨⟨[], (by show m.user.answers = [] ++ ans0; simpa using hans), .nil, fun _ => rfl⟩,
           Or.inl ⟨rfl, rfl, by rw [show (tick m).user.answers = m.user.answers from rfl, hans]; exact hlt⟩,
           stOK_tick hst, Nat.le_refl _⟩
     | cons it its' =>
@@ -155,26 +174,26 @@ theorem tp_succ {k : Nat} (ihA : TAk fl tmpl max prog F k) (ihD : TDk fl tmpl ma
     · exact Or.inl hill
     · exact Or.inr (match_afterCut hok hlcp hm)
 
-theorem tp_zero : TPk fl tmpl max prog F 0 := by
+theorem tp_zero : TPk fl mo tmpl max prog F 0 := by
   intro p lv m sig m' hd
   simp [dfsP] at hd
 
-theorem ta_zero : TAk fl tmpl max prog F 0 := by
+theorem ta_zero : TAk fl mo tmpl max prog F 0 := by
   intro it its id g K env R q nv n d r lv m sig m' ans0 hda
   simp [dfsAlts] at hda
 
-theorem td_zero : TDk fl tmpl max prog F 0 := by
+theorem td_zero : TDk fl mo tmpl max prog F 0 := by
   intro ct id K env R q nv n d r lv m sig m' ans0 hda
   simp [dfsAlts] at hda
 
 theorem t_all (hprog : ∀ c ∈ prog, clauseS fl c = true) : ∀ k : Nat,
-    (∀ j, j ≤ k → TPk fl tmpl max prog F j) ∧ TAk fl tmpl max prog F k ∧ TDk fl tmpl max prog F k
+    (∀ j, j ≤ k → TPk fl mo tmpl max prog F j) ∧ TAk fl mo tmpl max prog F k ∧ TDk fl mo tmpl max prog F k
   | 0 => ⟨fun j hj => by
       have : j = 0 := by omega
       subst this; exact tp_zero, ta_zero, td_zero⟩
   | k + 1 =>
     have ih := t_all hprog k
-    have ihP : TPk fl tmpl max prog F k := ih.1 k (Nat.le_refl k)
+    have ihP : TPk fl mo tmpl max prog F k := ih.1 k (Nat.le_refl k)
     ⟨fun j hj => by
       rcases Nat.lt_or_ge j (k + 1) with h | h
       · exact ih.1 j (by omega)
@@ -183,7 +202,7 @@ theorem t_all (hprog : ∀ c ∈ prog, clauseS fl c = true) : ∀ k : Nat,
         exact tp_succ ih.2.1 ih.2.2 ih.1 hprog,
      ta_succ ih.1 hprog, td_succ ihP hprog⟩
 
-theorem tp_all (hprog : ∀ c ∈ prog, clauseS fl c = true) (k : Nat) : TPk fl tmpl max prog F k :=
+theorem tp_all (hprog : ∀ c ∈ prog, clauseS fl c = true) (k : Nat) : TPk fl mo tmpl max prog F k :=
   (t_all hprog k).1 k (Nat.le_refl k)
 
 end
